@@ -18,7 +18,7 @@ RULE = ("the C01 lattice and random option tuples (independently seeded); every 
 ASSUMPTIONS = ["vf/ref implements the Parquet format documents (calibrated on third-party files with ground truth in /repo/test-data)",
                "SNAPPY/ZSTD/LZ4/BROTLI are decompressed with cramjam, which the library under test also uses (a symmetric codec defect is invisible); GZIP with zlib",
                "a missing padding of the last bit-packed group is a note, not a violation (ecosystem readers tolerate it)"]
-CASE_TIMEOUT = 300
+CASE_TIMEOUT = 120
 
 from vf.gen import frames as F
 from vf.props import c01
